@@ -309,6 +309,44 @@ Proof. vm_compute. reflexivity. Qed.
 Lemma leaf_fragment_nonempty : (2000 <=? length src_leaf_fragment)%nat = true.
 Proof. vm_compute. reflexivity. Qed.
 
+
+(* ---------------------------------------------------------------- parser: the stack machine, executed *)
+(* Value::parse_in of value.rs -- the explicit stack with its four kinds of frames, the local function stack_context,
+   value_or_parse, the end-of-input check -- RUN by the translator on whole documents under the strict and the flexible
+   record (first item of an input word), every function it calls being run from the source as well.  The code map starts
+   empty here.  Outcome: Ok -> [0; index; position; n] ++ encoding of the value (n numbers) ++ code map; errors as before.
+   Encoding of a value: null [0], true [1], false [2], number [3; n; bytes], string [4; n; characters],
+   array [5; count; items ..], object [6; count; (n; key; value) ..]. *)
+Fixpoint ct_enc_value (v : value) : list N :=
+  match v with
+  | VNull => [0]
+  | VBool true => [1]
+  | VBool false => [2]
+  | VNum n => ([3; N.of_nat (length n)] ++ n)%list
+  | VStr s => ([4; N.of_nat (length s)] ++ s)%list
+  | VArr l => ([5; N.of_nat (length l)] ++ flat_map ct_enc_value l)%list
+  | VObj es => ([6; N.of_nat (length es)]
+                 ++ flat_map (fun e : list N * value => ([N.of_nat (length (fst e))] ++ fst e ++ ct_enc_value (snd e))%list) es)%list
+  end.
+Definition ct_machine_outcome (w : list N) (r : outcome perr (value * list cme)) : list N :=
+  match r with
+  | Ok (v, m) =>
+      let enc := ct_enc_value v in
+      ([0; 0; N.of_nat (length w); N.of_nat (length enc)] ++ enc ++ ct_flat m)%list
+  | Err e => ct_err_outcome e
+  | Panic _ => [3]
+  | OutOfFuel => [4]
+  end.
+Definition ct_machine_on (table : list (list N * list N)) : list (list N * list N) :=
+  map (fun w => (w, match w with
+                    | o :: cs => ct_machine_outcome cs (parse_items (ct_opts o) (rest (ct_state cs)))
+                    | [] => []
+                    end)) (map fst table).
+Theorem tie_leaf_machine : src_leaf_machine = ct_machine_on src_leaf_machine.
+Proof. vm_compute. reflexivity. Qed.
+Lemma leaf_machine_nonempty : (5000 <=? length src_leaf_machine)%nat = true.
+Proof. vm_compute. reflexivity. Qed.
+
 (* ---------------------------------------------------------------- printer: presets *)
 
 Definition cval_of_indent (i : indent) : cval :=
@@ -502,6 +540,10 @@ Theorem fragment_from_source :
   src_leaf_fragment = ct_fragment_on src_leaf_fragment /\ (2000 <=? length src_leaf_fragment)%nat = true.
 Proof. exact (conj tie_leaf_fragment leaf_fragment_nonempty). Qed.
 
+Theorem stack_machine_from_source :
+  src_leaf_machine = ct_machine_on src_leaf_machine /\ (5000 <=? length src_leaf_machine)%nat = true.
+Proof. exact (conj tie_leaf_machine leaf_machine_nonempty). Qed.
+
 Theorem control_from_source :
   src_is_control = set_of Parser.is_control char_domain /\ (forall c, 256 <= c -> Parser.is_control c = false).
 Proof. exact (conj tie_is_control is_control_above). Qed.
@@ -567,6 +609,7 @@ Print Assumptions string_scanner_from_source.
 Print Assumptions number_parser_from_source.
 Print Assumptions object_functions_from_source.
 Print Assumptions fragment_from_source.
+Print Assumptions stack_machine_from_source.
 Print Assumptions parser_escapes_from_source.
 Print Assumptions surrogate_pair_from_source.
 Print Assumptions presets_from_source.
